@@ -537,7 +537,40 @@ impl Space for PairSpace {
         let (a0, b0) = sys.as_ref().unwrap();
         let tag = st.aux.0;
         if self.key(a0.as_ref(), b0.as_ref()) ^ (tag as u128) != st.key {
-            eprintln!("MACHINERY: nondeterministic replay in pair {}", self.label);
+            // The replay runs the calls back to back and then looks; on the way the state was first
+            // reached the observers ran around its last call (before it if it was the first call
+            // tried in the parent state, and always between the call and the key).  If one of those
+            // two orders reproduces the recorded key, both systems are deterministic but an observer
+            // call changes what a later call or observer reports - a finding about the code under
+            // test (it does not happen on the unchanged tree).  Anything else is a harness defect.
+            if let Some((last, init)) = st.hist.split_last() {
+                for look_first in [false, true] {
+                    let (a, b) = self.rebuild(init);
+                    if look_first {
+                        let _ = self.key(a.as_ref(), b.as_ref());
+                        let _ = a.observe(probes);
+                        if let PairMode::AltTwin { p } = &self.mode {
+                            let _ = a.outside(p);
+                        }
+                    }
+                    let _ = a.apply(last);
+                    let _ = b.apply(last);
+                    let _ = a.observe(probes);
+                    let _ = b.observe(probes);
+                    if self.key(a.as_ref(), b.as_ref()) ^ (tag as u128) == st.key {
+                        let sig = format!("{}|{}|what-is-reported-depends-on-earlier-observer-calls", self.label, last.name());
+                        *e.vio_counts.entry(sig.clone()).or_insert(0) += 1;
+                        e.violations.push(Violation {
+                            property: self.property.clone(),
+                            signature: sig,
+                            summary: format!("history {:?}: the joint state seen after it depends on whether and when the observers (exists, metadata, read_dir, open+read, walk) were called around its last call: on one of the two systems an observer call changes what later calls report", st.hist.iter().map(|o| o.show()).collect::<Vec<_>>()),
+                            replay: self.replay(&st.hist, None, json!({"note": "replay the history once back to back and once with the observers called around the last call; compare what the observers report afterwards"})),
+                        });
+                        return e;
+                    }
+                }
+            }
+            eprintln!("MACHINERY: nondeterministic replay in pair {} (history {:?})", self.label, st.hist.iter().map(|o| o.show()).collect::<Vec<_>>());
             std::process::exit(2);
         }
         let before = a0.observe(probes);
